@@ -107,7 +107,7 @@ def eval_variant(v: dict, props=None) -> dict:
             try:
                 from .main import analysis_budget
 
-                with analysis_budget(int(os.environ.get("VERIF_ANALYSIS_BUDGET", "900")), f"{prop} on variant {v['id']}"):
+                with analysis_budget(int(os.environ.get("VERIF_ANALYSIS_BUDGET", "300")), f"{prop} on variant {v['id']}"):
                     eng = Engine(tmp)
                     for m, line, what in eng.g0():
                         ctx.error(f"G0 {m}:{line} {what}")
